@@ -978,3 +978,82 @@ theorem liveRows_filter (l : List (Row × Bool)) (q : Row → Bool) :
   simp [Function.comp, Bool.and_comm]
 
 end RlModel
+
+namespace RlModel
+
+/-! ### the executor's table scan (merge of per-row-set range scans) -/
+
+theorem liveRows_sublist {l1 l2 : List (Row × Bool)} (h : l1.Sublist l2) : (liveRows l1).Sublist (liveRows l2) := by
+  unfold liveRows
+  exact (h.filter _).map _
+
+theorem liveRows_sublist_map_fst (l : List (Row × Bool)) : (liveRows l).Sublist (l.map (·.1)) := by
+  unfold liveRows
+  exact (List.filter_sublist).map _
+
+theorem scanBatchesC_sublist (fc : Nat) (r : Option KeyRange) (bs : List (List (Row × Bool))) :
+    (scanBatchesC fc r bs).flatten.Sublist (liveRows bs.flatten) := by
+  induction bs with
+  | nil => simp [scanBatchesC, liveRows]
+  | cons b bs ih =>
+    simp only [List.flatten_cons, liveRows_append, scanBatchesC]
+    split
+    · exact ih.trans (List.sublist_append_right _ _)
+    · cases r with
+      | none =>
+        simp only [List.flatten_cons]
+        exact List.Sublist.append (List.Sublist.refl _) ih
+      | some rg =>
+        simp only
+        have hout : (liveRows (sliceRange (firstIdx (fun x => lowerOk rg.lo (Row.at x.1 fc)) b)
+            (firstIdx (fun x => upperBad rg.hi (Row.at x.1 fc)) b) b)).Sublist (liveRows b) := by
+          apply liveRows_sublist
+          unfold sliceRange
+          exact (List.drop_sublist _ _).trans (List.take_sublist _ _)
+        split
+        · simp only [List.flatten_cons, List.flatten_nil, List.append_nil]
+          exact hout.trans (List.sublist_append_left _ _)
+        · simp only [List.flatten_cons]
+          exact List.Sublist.append hout ih
+
+theorem collectOut_mem {α β : Type} (f : α → Out β) (l : List α) (ys : List β) (h : collectOut (l.map f) = .ok ys) :
+    ∀ y ∈ ys, ∃ x ∈ l, f x = .ok y := by
+  induction l generalizing ys with
+  | nil => simp [collectOut] at h; subst h; intro y hy; cases hy
+  | cons a l ih =>
+    simp only [List.map_cons, collectOut] at h
+    cases hfa : f a with
+    | panic s => simp [hfa, Out.bind] at h
+    | ok b =>
+      cases hrest : collectOut (l.map f) with
+      | panic s => simp [hfa, hrest, Out.bind, Out.map] at h
+      | ok bs =>
+        simp only [hfa, hrest, Out.bind, Out.map, Out.ok.injEq] at h
+        subst h
+        intro y hy
+        rcases List.mem_cons.1 hy with rfl | hy
+        · exact ⟨a, by simp, hfa⟩
+        · obtain ⟨x, hx, hfx⟩ := ih bs hrest y hy
+          exact ⟨x, by simp [hx], hfx⟩
+
+/-- every child iterator of the table scan delivers a sublist of its row-set's stored rows -/
+theorem scanRowSetC_sorted (cmp : Row → Row → Ordering) (rs : RowSet) (cols : List Nat) (r : Option KeyRange)
+    (chunks : List (List Row)) (h : scanRowSetC rs cols r = .ok chunks) (hs : SortedBy cmp rs.rows) :
+    SortedBy cmp chunks.flatten := by
+  unfold scanRowSetC at h
+  cases hst : startRowid rs r with
+  | panic s => simp [hst, Out.map] at h
+  | ok s =>
+    simp only [hst, Out.map, Out.ok.injEq] at h
+    subst h
+    have h1 := scanBatchesC_sublist (cols.headD 0) r
+      (splitBatches (cutPoints rs cols) ((rs.tagged.drop s).length + 1) s (rs.tagged.drop s))
+    rw [splitBatches_flatten _ _ _ _ (by omega)] at h1
+    have h2 : (liveRows (rs.tagged.drop s)).Sublist rs.rows := by
+      refine (liveRows_sublist_map_fst _).trans ?_
+      rw [List.map_drop, tagged_map_fst]
+      exact List.drop_sublist _ _
+    exact List.Pairwise.sublist (h1.trans h2) hs
+
+end RlModel
+
